@@ -356,15 +356,26 @@ fn connect<P: AsRef<Path>>(env: &Env, dbfile: P) -> rusqlite::Result<Connection>
     // mode PERSIST.  But WAL fails on Windows WSL due to WSL's totally broken
     // locking.  On WSL, at least PERSIST works in single-threaded mode, so
     // if we're careful we can use it, more or less.
-    let journal_mode = db.query_row(
-        if env.locks_broken() {
-            "pragma journal_mode = PERSIST"
-        } else {
-            "pragma journal_mode = WAL"
-        },
-        [],
-        |row| -> rusqlite::Result<String> { row.get(0) },
-    )?;
+    let pragma = if env.locks_broken() {
+        "pragma journal_mode = PERSIST"
+    } else {
+        "pragma journal_mode = WAL"
+    };
+    // SQLite does not call the busy handler while it changes the journal mode,
+    // so two processes that open a brand-new database at the same moment can
+    // get SQLITE_BUSY here at once.  Retry for as long as the busy timeout.
+    let deadline = std::time::Instant::now() + Duration::from_secs(60);
+    let journal_mode = loop {
+        match db.query_row(pragma, [], |row| -> rusqlite::Result<String> { row.get(0) }) {
+            Err(rusqlite::Error::SqliteFailure(err, _))
+                if err.code == rusqlite::ErrorCode::DatabaseBusy
+                    && std::time::Instant::now() < deadline =>
+            {
+                std::thread::sleep(Duration::from_millis(5));
+            }
+            result => break result?,
+        }
+    };
     if env.locks_broken() {
         assert_eq!(&journal_mode, "persist");
     } else {
